@@ -221,16 +221,26 @@ pub fn run(ctx: &Ctx) -> i32 {
         acc.merge(p);
     }
     // the 32-bit boundary in each radix: never a panic, values beyond i32 rejected
-    for base in [i32::MAX as i64 - 2, i32::MAX as i64 - 1, i32::MAX as i64, i32::MAX as i64 + 1, i32::MAX as i64 + 2, 4294967295, 4294967296, 99999999999] {
+    // ... and the values at which an accumulator guard of the form `value > MAX / radix` trips, each
+    // also followed by a character that ends the digit run (label characters, an offset): such a
+    // token is a label, a label with offset or a malformed integer, never "too large"
+    let m = i32::MAX as i64;
+    for base in [m - 2, m - 1, m, m + 1, m + 2, 4294967295, 4294967296, 99999999999, m / 16, m / 16 + 1, m / 10, m / 10 + 1, m / 8, m / 8 + 1, m / 2, m / 2 + 1] {
         for neg in [false, true] {
             let v = if neg { -base } else { base };
             for s in spellings(v) {
-                acc.eval("b/i32-boundary");
-                for c in [0usize, 4] {
-                    if let Err((sig, what)) = judge_parse(c, &s) {
-                        acc.violation(format!("C14/{sig}"), what, json!({"line": line(c, &s), "context": c, "token": s}));
-                    } else {
-                        acc.nontrivial();
+                for suffix in ["", "_", "g", "_tab", "+1", "-1"] {
+                    if !suffix.is_empty() && base > m {
+                        continue;
+                    }
+                    let tok = format!("{s}{suffix}");
+                    acc.eval("b/i32-boundary");
+                    for c in [0usize, 2, 4] {
+                        if let Err((sig, what)) = judge_parse(c, &tok) {
+                            acc.violation(format!("C14/{sig}"), what, json!({"line": line(c, &tok), "context": c, "token": tok}));
+                        } else {
+                            acc.nontrivial();
+                        }
                     }
                 }
             }
@@ -456,7 +466,7 @@ pub fn run(ctx: &Ctx) -> i32 {
         ctx,
         acc,
         Level { category: "model_checking", bfs: None },
-        "bounded-exhaustive enumeration: (a) every string of length 1..=5 (quick) / 6 (thorough) over the 19-character alphabet {+ - # x o b 0 1 7 9 a f g ^ r _ é ı Ų} in each of six argument positions (integer value, step count, location of print / move, address of goto / break add), parsed by the real command parser and by the reference recogniser of the documented grammar: same acceptance and, when accepted, the same command with the same values (Debug rendering); (b) every value 0..65535 and -1..-32768 in every documented spelling (sign before or after the prefix, optional leading zero, 4 radices, letter case, leading zeros) as integer, as address and as PC offset, plus the i32 boundary in each radix; (c) every name documented in help.txt in three letter cases and every word of <= 3 letters with four argument shapes (totality, case-insensitivity); (d) every token of length <= 3 (thorough 4, stride 5) through the real debugger (`move r1 T`, `goto T`, `break add T`) against the reference debugger: accepted tokens have exactly the documented effect, rejected ones none; (e) 18 scripts (incl. 2-, 3- and 4-byte characters) x every split point between --command and stdin x ';'/newline per gap x trailing separator through the real binary: identical exit status, stdout and stderr. A seeded random supplement of longer strings with multi-byte characters is run and reported separately (sampling, not part of the exhaustive claim). non-trivial = accepted-and-equal parses + agreeing sessions / variants",
+        "bounded-exhaustive enumeration: (a) every string of length 1..=5 (quick) / 6 (thorough) over the 19-character alphabet {+ - # x o b 0 1 7 9 a f g ^ r _ é ı Ų} in each of six argument positions (integer value, step count, location of print / move, address of goto / break add), parsed by the real command parser and by the reference recogniser of the documented grammar: same acceptance and, when accepted, the same command with the same values (Debug rendering); (b) every value 0..65535 and -1..-32768 in every documented spelling (sign before or after the prefix, optional leading zero, 4 radices, letter case, leading zeros) as integer, as address and as PC offset, plus the i32 boundary and the values MAX/radix (+1) in each radix, bare and followed by label characters or an offset; (c) every name documented in help.txt in three letter cases and every word of <= 3 letters with four argument shapes (totality, case-insensitivity); (d) every token of length <= 3 (thorough 4, stride 5) through the real debugger (`move r1 T`, `goto T`, `break add T`) against the reference debugger: accepted tokens have exactly the documented effect, rejected ones none; (e) 18 scripts (incl. 2-, 3- and 4-byte characters) x every split point between --command and stdin x ';'/newline per gap x trailing separator through the real binary: identical exit status, stdout and stderr. A seeded random supplement of longer strings with multi-byte characters is run and reported separately (sampling, not part of the exhaustive claim). non-trivial = accepted-and-equal parses + agreeing sessions / variants",
         true,
         &["strings-enumerated", "transport-variants-agree"],
         &["reference grammar = refmodel::cmdlang, validated against the repository's own parser tests by `lacemc selftest`", "negative step counts are not judged (help.txt says Integer, a code comment says non-positive means 1, the code casts to u16)"],
